@@ -496,7 +496,8 @@ DeclProbes(p) ==
        Probe("decl:debug_delta", "-",
              << Decl(p \o "a", A1("number")), Fact(p \o "a", <<N(1)>>),
                 Rule(At(p \o "a", <<Fn(InfixOps[10], "i", <<V("x"), N(1)>>, FALSE)>>), <<At(p \o "a", X), C("<", "LT", V("x"), N(3))>>),
-                Delta(p \o "d", p \o "a"), Decl(p \o "o", A1("number")), Out(p \o "o"),
+                \* (the base relation is an output: souffle loops for ever on a debug_delta of a relation that is not)
+                Out(p \o "a"), Delta(p \o "d", p \o "a"), Decl(p \o "o", A1("number")), Out(p \o "o"),
                 Rule(At(p \o "o", X), <<At(p \o "d", <<V("x"), AnyT>>)>>) >>, <<>>),
        \* types
        Probe("type:subset", "-", << TySub(p \o "T", "number"), Decl(p \o "o", A1(p \o "T")), Out(p \o "o"), Fact(p \o "o", <<N(1)>>) >>,
@@ -577,7 +578,7 @@ DeclProbes(p) ==
 
 \* pragmas are global: they take no prefix and are not composed
 PragmaProbes ==
-    << Probe("pragma:key", "-", << Pragma("verbose", <<>>), Decl("o", A1("number")), Out("o"), Fact("o", <<N(1)>>) >>, Rows("o", << <<"1">> >>)),
+    << Probe("pragma:key", "-", << Pragma("c15-probe-key", <<>>), Decl("o", A1("number")), Out("o"), Fact("o", <<N(1)>>) >>, Rows("o", << <<"1">> >>)),
        Probe("pragma:key-value", "-", << Pragma("jobs", <<"1">>), Decl("o", A1("number")), Out("o"), Fact("o", <<N(1)>>) >>, Rows("o", << <<"1">> >>)) >>
 
 Probes(p) == FunctorProbes(p) \o ConstraintProbes(p) \o TermProbes(p) \o ClauseProbes(p) \o DeclProbes(p)
